@@ -326,11 +326,17 @@ def suite_sched(seed, tier):
     writes_ok = True
     evals = 0
     for k in range(n_cfg):
-        case = gen_mr_case(rng)
+        # one configuration in four has 11-13 input files and a bin size of 2-4: the number of
+        # batches of a midsection round then exceeds (and is no multiple of) some process counts
+        many = (k % 4 == 1)
+        case = gen_mr_case(rng, nfiles=rng.choice([11, 12, 13])) if many else gen_mr_case(rng)
         while len(case["files"]) < 3:
             case = gen_mr_case(rng)
         case["cfg"]["cleanup"] = False
         case["cfg"]["change"] = rng.choice([0.0, 0.1, -0.05])
+        if many:
+            case["cfg"]["bin"] = rng.choice([2, 3, 4])
+            case["cfg"]["rounds"] = rng.choice([1, 2])
         with tempfile.TemporaryDirectory(prefix="verif_sched_") as tmp:
             tmp = Path(tmp)
             (tmp / "in").mkdir()
@@ -363,7 +369,7 @@ def suite_sched(seed, tier):
                     return _real(out_dir, fps_bfs, mols_bfs, label, round_idx)
                 mr._save_bufs_and_mol_idxs = spy
                 try:
-                    run_impl(case, od, tmp / "in", mp_context=FakeCtx, procs=3, paths=paths)
+                    run_impl(case, od, tmp / "in", mp_context=FakeCtx, procs=[3, 2, 4, 5][o % 4], paths=paths)
                 finally:
                     mr._save_bufs_and_mol_idxs = real_save
                 evals += 1
